@@ -1,6 +1,6 @@
 """C12 — a finished step's log holds everything the step printed."""
 import base64, hashlib, json, os, subprocess
-import common
+import common, x_shared
 
 TIE = {"Log": ["h_log_setup", "h_log_setupLog", "h_log_setupStdout", "h_log_setupStderr", "h_log_setupScript", "h_log_setupExec",
                "h_log_teardown", "h_log_Execute", "h_log_OpenOrCreateFile", "h_log_openFile", "h_log_cmdSetStdout", "h_log_cmdSetStderr",
@@ -98,6 +98,10 @@ def run(chk, replay):
     rng = chk.rng
     quick = chk.tier == "quick"
     cases = []
+    if replay and "shared" in json.load(open(replay))["case"]:
+        # a shared-file case (several writers on one `stdout:` / `stderr:` file): x_shared.py
+        chk.stats = {}; chk.rule = "replay of one shared-file case"
+        x_shared.stream(chk, binp, json.load(open(replay))["case"]); return
     if replay:
         cases = [json.load(open(replay))["case"]]
     else:
@@ -292,3 +296,6 @@ def run(chk, replay):
     chk.samples = [{"case": {k: v for k, v in c.items() if k != "attempts"}, "attempts": c["attempts"][:3],
                     "answer": {k: v for k, v in (res.get(c["id"]) or {}).items() if k in ("status", "attempts_run", "log", "out", "err", "m_log_has_all")}}
                    for c in cases[:1] + cases[len(cases) // 2:len(cases) // 2 + 1] + cases[-1:]]
+    if not replay:
+        # several writers on ONE `stdout:` / `stderr:` file (concurrent steps, two runs): own generator + monitor, x_shared.py
+        x_shared.stream(chk, binp)
